@@ -253,6 +253,12 @@ theorem tag_len_exact (b : Buf) (hb : b.Inv) (tag : UInt8) (v : Nat) :
     have : b.len + hdrNeed v ≤ Buf.cap := by simp only [Buf.len]; omega
     rw [if_pos this]
 
+/-! Non-vacuity: the header boundaries, and a bookmark measured over two pushes. -/
+example : hdrNeed 127 = 2 ∧ hdrNeed 128 = 3 ∧ hdrNeed 255 = 3 ∧ hdrNeed 256 = 4 := by decide
+example : ∃ b1 b2, Buf.empty.setBookmark 3 = .ok b1 ∧
+    [[1, 2], [3]].foldlM (fun (acc : Buf) c => acc.push c) b1 = .ok b2 ∧
+    b2.getBookmark = .ok (3 + 3) := ⟨_, _, rfl, rfl, rfl⟩
+
 /-- **C17.cap_side**: the capacity is below 65536, which the two-octet long form needs -/
 theorem cap_side : Buf.cap < 65536 := by decide
 
